@@ -100,13 +100,13 @@ J('clamp_probability.contract', 'h_enf_clamp_probability', ['C17', 'C02'], enfor
 for b in (0, 1):   # split on the bit: `(!bit) * w1` is then a constant and the only multiplier left is old_p * (127/128)
     J('update_probability.contract.bit%d' % b, 'h_enf_update_probability', ['C17', 'C02'], enforce='update_probability', defines=DEFS + ['-DUP_BIT=%d' % b], solver='cadical', timeout=900, cost=4)
 J('adaptive.Clear.contract', 'h_enf_AdaptiveRAnsBitDecoder_Clear', ['C17', 'C02'], enforce='AdaptiveRAnsBitDecoder_Clear', replace=['ans_read_end'])
-J('adaptive.StartDecoding.contract', 'h_enf_AdaptiveRAnsBitDecoder_StartDecoding', ['C17', 'C02', 'C18'], enforce='AdaptiveRAnsBitDecoder_StartDecoding',
+J('adaptive.StartDecoding.contract', 'h_enf_AdaptiveRAnsBitDecoder_StartDecoding', ['C17', 'C02', 'C18', 'C06'], enforce='AdaptiveRAnsBitDecoder_StartDecoding',
   replace=['AdaptiveRAnsBitDecoder_Clear', 'DecoderBuffer_Decode_u32', 'DecoderBuffer_remaining_size', 'DecoderBuffer_data_head', 'DecoderBuffer_Advance', 'ans_read_init'])
 J('adaptive.DecodeNextBit.contract', 'h_enf_AdaptiveRAnsBitDecoder_DecodeNextBit', ['C17', 'C02'], enforce='AdaptiveRAnsBitDecoder_DecodeNextBit', replace=['rabs_desc_read', 'clamp_probability', 'update_probability'])
 J('adaptive.DecodeLeastSignificantBits32.contract', 'h_enf_AdaptiveRAnsBitDecoder_DecodeLeastSignificantBits32', ['C17', 'C02'], enforce='AdaptiveRAnsBitDecoder_DecodeLeastSignificantBits32',
   replace=['AdaptiveRAnsBitDecoder_DecodeNextBit'], loops=True)
 for b in (0, 1):
-    J('adaptive.sync.bit%d' % b, 'h_adaptive_sync', ['C17'], defines=DEFS + ['-DSYNC_BIT=%d' % b, '-DRABS_READ=rabs_read_ghost'], solver='cadical', timeout=900, cost=4)
+    J('adaptive.sync.bit%d' % b, 'h_adaptive_sync', ['C17', 'C06'], defines=DEFS + ['-DSYNC_BIT=%d' % b, '-DRABS_READ=rabs_read_ghost'], solver='cadical', timeout=900, cost=4)
 J('folded.enc.contract', 'h_enf_FoldedBit32Encoder_EncodeLeastSignificantBits32', ['C17'], enforce='FoldedBit32Encoder_EncodeLeastSignificantBits32', ignore=[SHL1], unwind=34,
   unwind_reason='loop over nbits <= 32 bit positions; unwinding assertions on')
 J('folded.dec.contract', 'h_enf_FoldedBit32Decoder_DecodeLeastSignificantBits32', ['C17', 'C02'], enforce='FoldedBit32Decoder_DecodeLeastSignificantBits32', unwind=34,
